@@ -14,7 +14,7 @@ import (
 
 func init() {
 	Register(&World{Name: "pardo", Episodes: true, Props: []string{"C13"}, Concurrent: true, Timed: true, MaxSteps: 6000, Run: pardoWorld})
-	ExpectedProbes["pardo"] = []string{"sequential-fast-path", "parallel-path", "failure-in-last-index", "two-failures", "caller-cancel-midflight", "waiter-released-by-failure", "parallelism-from-gomaxprocs", "n-zero"}
+	ExpectedProbes["pardo"] = []string{"sequential-fast-path", "parallel-path", "failure-in-last-index", "two-failures", "caller-cancel-midflight", "waiter-released-by-failure", "parallelism-from-gomaxprocs", "n-zero", "caller-context-without-done-channel"}
 }
 
 type pardoCall struct {
@@ -88,7 +88,7 @@ func pardoWorld(r *R) {
 	}
 	callerKind := 0
 	if withCtx {
-		callerKind = []int{0, 0, 0, 1, 2}[r.Choose(5, "callerctx")]
+		callerKind = []int{0, 0, 0, 1, 2, 3, 4}[r.Choose(7, "callerctx")]
 	}
 	root := NewCtx(nil, "root")
 	// Earlier calls in the same process: the call under test is not the first use of the package.
@@ -129,6 +129,10 @@ func pardoWorld(r *R) {
 	case 2:
 		caller = PreCancelled(root, "caller")
 		r.Fault("ctx_precancelled")
+	case 3, 4:
+		// a caller with nothing to cancel: context.Background(), or a value on top of it
+		caller = BackgroundCtx("caller", callerKind == 4)
+		r.Probe("caller-context-without-done-channel")
 	}
 	cancelSpin := r.Choose(12, "cancelspin")
 	r.Logf("config: variant=%d n=%d parallelism=%d eff=%d seq=%v callerKind=%d plans=%+v", variant, n, parallelism, eff, seq, callerKind, plans)
